@@ -481,11 +481,13 @@ func deepEqual(a, b value, seen map[[2]interface{}]bool) bool {
 		return true
 	case []value:
 		bv, ok := b.([]value)
-		if !ok || len(av) != len(bv) || (av == nil) != (bv == nil) {
+		if !ok || len(av) != len(bv) || (av == nil) != (bv == nil) || cap(av) != cap(bv) {
 			return false
 		}
-		for i := range av {
-			if !deepEqual(av[i], bv[i], seen) {
+		// the whole backing array counts: a scratch buffer re-sliced to length 0 still changed
+		af, bf := av[:cap(av)], bv[:cap(bv)]
+		for i := range af {
+			if !deepEqual(af[i], bf[i], seen) {
 				return false
 			}
 		}
